@@ -303,6 +303,27 @@ func (g s1Gen) orderPropQuery() string {
 	return b.String()
 }
 
+// distinctQuery: stage S1d — RETURN DISTINCT over a node match.
+func (g s1Gen) distinctQuery() string {
+	var b strings.Builder
+	b.WriteString("match (n" + Pick(g.rng, []string{"", "", ":NodeKind1", ":NodeKind2:NodeKind1", ":NodeKind2"}) + ")")
+	if g.rng.Chance(1, 2) {
+		b.WriteString(" where " + g.pred(2, 0))
+	}
+	b.WriteString(" return distinct ")
+	n := 1 + g.rng.Intn(3)
+	items := make([]string, n)
+	for i := range items {
+		it := Pick(g.rng, []string{"n", "n.name", "n.a", "n.a", "n.f", "n.zz", "id(n)"})
+		if g.rng.Chance(1, 3) {
+			it += fmt.Sprintf(" as c%d", i)
+		}
+		items[i] = it
+	}
+	b.WriteString(strings.Join(items, ", "))
+	return b.String()
+}
+
 // countQuery: stage S1c — MATCH (n[:K…]) [WHERE p] RETURN count(n) [AS c].
 func (g s1Gen) countQuery() string {
 	var b strings.Builder
@@ -447,5 +468,9 @@ func (c01TieSuite) Gen(rng *Rng, tier string, w *bufio.Writer, stats *Stats) {
 	for i := 0; i < n/3; i++ {
 		fmt.Fprintf(w, "# case %d s1o\nq %s %d 4 0 0\n", 3*n+2*(n/3)+i+1, jsonQuote(g.orderPropQuery()), rng.Intn(1<<20))
 		stats.Inc("s1o_generated")
+	}
+	for i := 0; i < n/3; i++ {
+		fmt.Fprintf(w, "# case %d s1d\nq %s %d 4 0 0\n", 4*n+i+1, jsonQuote(g.distinctQuery()), rng.Intn(1<<20))
+		stats.Inc("s1d_generated")
 	}
 }
